@@ -219,3 +219,62 @@ Definition provider_sampler (raw : option bytes) (arg : option (option N)) : sam
               | None => parent_based SAlways
               end
   end.
+
+(** *** the stock randomIDGenerator (id_generator.go) over a scripted rand.Source.
+    math/rand's Rand.Read (rand.go, func read) hands out the seven low bytes of
+    each 63-bit source word, least significant first, and keeps the unread bytes
+    of the current word for the next Read.  [w k] is the k-th word of the source. *)
+Record rstate := { rk : nat; rval : N; rpos : nat }.   (* words taken, rest of the current word, bytes left in it *)
+Definition rinit : rstate := {| rk := 0; rval := 0; rpos := 0 |}.
+
+Section Stock.
+  Variable w : nat -> N.
+
+  Definition read_byte (st : rstate) : N * rstate :=
+    match rpos st with
+    | O => let v := w (rk st) in (v mod 256, {| rk := S (rk st); rval := v / 256; rpos := 6 |})
+    | S p => (rval st mod 256, {| rk := rk st; rval := rval st / 256; rpos := p |})
+    end.
+
+  Fixpoint read_bytes (n : nat) (st : rstate) : bytes * rstate :=
+    match n with
+    | O => ([], st)
+    | S n' => let '(b, st1) := read_byte st in
+              let '(r, st2) := read_bytes n' st1 in (b :: r, st2)
+    end.
+
+  (** for { Read(id[:]); if id.IsValid() { break } }  with the loop on explicit fuel *)
+  Fixpoint draw (n fuel : nat) (st : rstate) : option (bytes * rstate) :=
+    match fuel with
+    | O => None
+    | S f => let '(b, st') := read_bytes n st in
+             if all_zero b then draw n f st' else Some (b, st')
+    end.
+
+  Definition stock_span_id (fuel : nat) (st : rstate) : option (bytes * rstate) := draw 8 fuel st.
+  Definition stock_ids (fuel : nat) (st : rstate) : option (bytes * bytes * rstate) :=
+    match draw 16 fuel st with
+    | None => None
+    | Some (t, st1) => match draw 8 fuel st1 with
+                       | None => None
+                       | Some (s, st2) => Some (t, s, st2)
+                       end
+    end.
+
+  (** a program on a provider whose ID generator is the stock one *)
+  Fixpoint run_stock (fuel : nat) (s : sampler) (ops : list start_op) (spans : list span) (st : rstate)
+    : option (list span * rstate) :=
+    match ops with
+    | [] => Some (spans, st)
+    | o :: r =>
+        let parent := parent_of spans (par o) in
+        let psc := if newroot o then zero_sc else parent in
+        let ans := if tid_valid (tid psc)
+                   then match stock_span_id fuel st with Some (sd, st') => Some (([], sd), st') | None => None end
+                   else match stock_ids fuel st with Some (t, sd, st') => Some ((t, sd), st') | None => None end in
+        match ans with
+        | None => None
+        | Some (g, st') => run_stock fuel s r (spans ++ [new_span s g parent (newroot o)]) st'
+        end
+    end.
+End Stock.
